@@ -86,6 +86,12 @@ class PyObj(ContainerNode):
             self.class_name: self.attrs.to_obj()
         }
 
+    def __eq__(self, other):
+        return isinstance(other, PyObj) and self.class_name == other.class_name and self.attrs == other.attrs
+
+    def __hash__(self):
+        return hash((self.class_name, self.attrs))
+
     def edits(self, node: TreeNode) -> Edit:
         if not isinstance(node, PyObj) or node.class_name != self.class_name:
             return Replace(self, node)
